@@ -198,6 +198,17 @@ def designs():
                                               "mid_logic(self.clk, self.i[2], self.i[0], t2, t1, False)"] + PUB4,
         [("mid", dict(clk="self.clk", a="self.i[0]", b="self.i[1]", y="t3", z="t0")),
          ("mid", dict(clk="self.clk", a="self.i[2]", b="self.i[0]", y="t2", z="t1"))])
+    # the same template at two depths (directly and below Mid), found at the shallower depth first
+    add("two-depths", lambda h: SIG4 + [inst(h, *XOR, dict(a="self.i[2]", b="self.i[3]", y="t1")),
+                                        "Mid(clk=self.clk, a=self.i[0], b=self.i[1], y=t3, z=t0)" if h else
+                                        "mid_logic(self.clk, self.i[0], self.i[1], t3, t0, False)"] + PUB4,
+        [("leafxor", dict(a="self.i[2]", b="self.i[3]", y="t1")), ("mid", dict(clk="self.clk", a="self.i[0]", b="self.i[1]", y="t3", z="t0"))])
+    # a registered parent signal WITH default (driven by a parent process) as whole-signal actual of a leaf input
+    add("parent-register-as-input", lambda h: ["cnt = Signal[Unsigned[2]](1, name='cnt')", "w = Signal[BitVector[2]]('10', name='w')",
+                                               "@std.sequential(std.Clock(self.clk))", "def count():", "    cnt.next = cnt + 1",
+                                               "    w.next = self.i[1:0]",
+                                               inst(h, *VEC, dict(x="w", u="cnt", yv="self.o[1:0]", ys="self.ou"))],
+        [("leafvec", dict(x="w", u="cnt", yv="self.o[1:0]", ys="self.ou"))])
     # instance created inside a concurrent context
     add("inline-in-concurrent", lambda h: ["@std.concurrent", "def logic():",
                                            "    " + (inst(True, *XOR, dict(a="self.i[0]", b="self.i[1]", y="self.ob")) if h else "pass"),
